@@ -67,7 +67,7 @@ def run(ctx):
                 s.close()
         fixtures(ctx)
         from . import c02_emul
-        c02_emul.run(ctx, rng)
+        c02_emul.run(ctx, rng, model)
     finally:
         model.close()
 
